@@ -46,6 +46,35 @@ def parse_directives(path):
     return out
 
 
+def cross_check(smt, expected):
+    """re-decide one SMT-LIB2 query with z3 4.8.12 and cvc5 1.0; any '(error' line or a different verdict counts"""
+    import subprocess, tempfile
+    out = {"queries": 1}
+    text = smt if "(set-logic" in smt else "(set-logic QF_BV)\n" + smt
+    with tempfile.NamedTemporaryFile("w", suffix=".smt2", delete=False) as f:
+        f.write(text)
+        fn = f.name
+    try:
+        for name, cmd in (("z3_4_8", ["/usr/bin/z3", "-T:60", fn]), ("cvc5", ["cvc5", "--tlimit=60000", fn])):
+            try:
+                r = subprocess.run(cmd, capture_output=True, text=True, timeout=90)
+                o = r.stdout.strip().splitlines()
+                verdict = o[0].strip() if o else "none"
+                if "(error" in r.stdout or "(error" in r.stderr:
+                    verdict = "error"
+            except Exception:
+                verdict = "timeout"
+            if verdict == expected:
+                out[name + "_agree"] = out.get(name + "_agree", 0) + 1
+            elif verdict in ("sat", "unsat"):
+                out["disagree"] = out.get("disagree", 0) + 1
+            else:
+                out[name + "_inconclusive"] = out.get(name + "_inconclusive", 0) + 1
+    finally:
+        os.unlink(fn)
+    return out
+
+
 def load_known():
     p = os.path.join(VERIF, "known_findings.json")
     if not os.path.exists(p):
@@ -142,6 +171,7 @@ def run(prop, tier, seed, ws, directives, args, t_start):
                 pkg_of[name] = pd
     pool = D.make_pool(prog, init, base_opts, seed)
     native_jobs = {}
+    xstats = {}
     for fid in roots:
         name = fid.rsplit(".", 1)[-1]
         dv = directives.get(name, {})
@@ -163,6 +193,9 @@ def run(prop, tier, seed, ws, directives, args, t_start):
         if dv.get("time") == "concrete":
             opts["concrete_time"] = True
         opts["job_seconds"] = 15
+        if tier == "thorough":
+            opts["xcheck"] = 12          # final obligation queries re-decided by other solvers
+            opts["xcheck_rate"] = 0.05
         max_paths = int(dv.get("max_paths", 400000 if tier == "quick" else 3000000))
         budget_s = float(dv.get("budget_s", 900 if tier == "quick" else 3600))
         if tier == "thorough" and "budget_thorough_s" in dv:
@@ -215,6 +248,13 @@ def run(prop, tier, seed, ws, directives, args, t_start):
                     seen.add(tuple(v[3]))
                     vio_jobs.append((name, v[3]))
             native_jobs.setdefault(pd, []).append((name, jobs, vio_jobs, hv))
+        # cross-solver check of sampled final obligation queries (thorough tier)
+        for smt, res in getattr(r, "xq", []):
+            xr = cross_check(smt, res)
+            for k, v in xr.items():
+                xstats[k] = xstats.get(k, 0) + v
+            if xr.get("disagree"):
+                problems.append("%s: solvers disagree on a final obligation query (z3 5.1 said %s)" % (name, res))
         # classify violations
         seen_sig = set()
         for v in hv:
@@ -306,6 +346,7 @@ def run(prop, tier, seed, ws, directives, args, t_start):
                 "unwinding_assertions_failed": sum(1 for p in problems if " unwind " in p),
                 "inconclusive": problems[:40],
                 "ssa_dump_s": round(ws.dump_time, 1),
+                "cross_check": xstats if xstats else "not run in the quick tier",
                 "explanation": "states = feasible symbolic paths explored (each decided by z3 for all inputs on that path); "
                                "transitions = SSA instructions executed symbolically; traces_validated = witness/counterexample tapes replayed against the native build",
             },
